@@ -331,7 +331,7 @@ def run(ctx):
                                 ctx.violation(role, msg + "; on the compiled crate the same implicit request made twice gives %s" % real, {"cmd": "builder_type_twice %s" % name, "real": real})
     rp.close()
     # ---- module()/new()/new_from_module: compiled code through Kani
-    res = kani.run_many(["k_builder_module"], cap_s=300)
+    res = kani.run_many(["k_builder_module"], cap_s=1200)
     kani.settle(ctx, res, lambda h: h[2:])
     ctx.extra["states"] = nchecked
     ctx.extra["transitions"] = nchecked
